@@ -342,6 +342,38 @@ class sym_float(float, metaclass=_FloatMeta):
         return builtins.float(x)
 
 
+def sym_floor(x):
+    """math.floor: exact in the solver (to_int)"""
+    if is_sym(x):
+        return SymReal(T.uf("floor", (lift(x),)))
+    import math
+    return math.floor(x)
+
+
+class _IntMeta(type):
+    def __instancecheck__(cls, obj):
+        import builtins
+        return isinstance(obj, builtins.int)
+
+    def __subclasscheck__(cls, sub):
+        import builtins
+        return issubclass(sub, builtins.int)
+
+
+class sym_int(int, metaclass=_IntMeta):
+    """stand-in for the name `int`: int(x) of a proxy is truncation towards zero (floor for x >= 0, -floor(-x) below),
+    an integer-valued SymReal; isinstance(x, int) keeps working"""
+
+    def __new__(cls, x=0, *a):
+        if is_sym(x):
+            x = x if isinstance(x, SymReal) else x._r()
+            pos = SymReal(T.uf("floor", (x.t,)))
+            neg = SymReal(T.neg(T.uf("floor", (T.neg(x.t),))))
+            return SymReal(T.ite(T.cmp("ge", x.t, T.ZERO), pos.t, neg.t))
+        import builtins
+        return builtins.int(x, *a)
+
+
 def sym_ite(c, a, b):
     """harness-side helper: ite over python values / proxies"""
     tc = liftb(c)
